@@ -374,7 +374,7 @@ fn probe_code(len: usize, pat: u8, params: &ConsensusParameters, with_predicates
 }
 
 /// `Input::predicate_owner` / `is_predicate_owner_valid` against the reference.
-/// Returns whether the library agreed.
+/// Returns whether the library agreed on all of them.
 fn probe_owner_lib(code: &[u8], root: &H256, root_ok: bool, case: &Value, acc: &mut Acc) -> bool {
     let exp = ref_owner(root);
     let got = guard::catch_any(|| Input::predicate_owner(code));
@@ -400,8 +400,10 @@ fn probe_owner_lib(code: &[u8], root: &H256, root_ok: bool, case: &Value, acc: &
     }
     acc.out(if ok { "predicate_owner:agrees" } else { "predicate_owner:DIFFERS" });
 
+    let mut valid_ok = true;
     let valid = guard::catch_any(|| Input::is_predicate_owner_valid(&Address::from(exp), code));
     if valid != Ok(true) {
+        valid_ok = false;
         if root_ok && ok {
             acc.viol(
                 "C15:lib:is_predicate_owner_valid:reference_refused",
@@ -416,6 +418,7 @@ fn probe_owner_lib(code: &[u8], root: &H256, root_ok: bool, case: &Value, acc: &
         let w = flip(&exp, b);
         let r = guard::catch_any(|| Input::is_predicate_owner_valid(&Address::from(w), code));
         if r != Ok(false) {
+            valid_ok = false;
             if root_ok && ok {
                 acc.viol(
                     "C15:lib:is_predicate_owner_valid:flipped_accepted",
@@ -427,7 +430,7 @@ fn probe_owner_lib(code: &[u8], root: &H256, root_ok: bool, case: &Value, acc: &
             }
         }
     }
-    ok
+    ok && valid_ok
 }
 
 fn pred_input(kind: usize, owner: H256, predicate: Vec<u8>, gas_used: u64, params: &ConsensusParameters) -> Input {
@@ -499,6 +502,9 @@ fn probe_predicate_vm(
     let cp = CheckPredicateParams::from(params);
     let st = MemoryStorage::default();
     let exp = ref_owner(proot);
+    // the message-data kind carries a helper input (see `pred_tx`); a library that is
+    // wrong about the helper is reported by `probe_helper`, not here
+    let lib_owner_ok = lib_owner_ok && (kind != 2 || probe_helper(&mut Acc::default()));
 
     // the gas a `ret 1` predicate of this length uses (estimation ignores the owner)
     let mut est = pred_tx(kind, exp, pred, (0, 0), params);
@@ -590,6 +596,19 @@ impl PredGas for Script {
         use fuel_tx::field::Inputs;
         self.inputs()[i].predicate_gas_used().expect("predicate input")
     }
+}
+
+/// The bare `ret 1` predicate that guards the helper coin of the message-data kind.
+fn probe_helper(acc: &mut Acc) -> bool {
+    let code = ret1();
+    let root = ref_code_root(&code);
+    let case = json!({"phase": "helper"});
+    acc.evals += 1;
+    let root_ok = matches!(guard::catch_any(|| Contract::root_from_code(&code)), Ok(r) if *r == root);
+    if !root_ok {
+        acc.viol("C15:lib:code_root", format!("code = the single instruction `ret 1`: reference root {} differs from root_from_code", hx(&root)), &case);
+    }
+    root_ok && probe_owner_lib(&code, &root, root_ok, &case, acc)
 }
 
 // ------------------------------------------------------------------ per-slot-set probes
@@ -965,6 +984,7 @@ fn explore(ctx: &Ctx) {
 
     let mut head = Acc::default();
     empty_contract_id(&mut head);
+    probe_helper(&mut head);
 
     // slot sets (small): once, sequentially, simplest first
     let mut slot_infos = vec![];
@@ -1017,6 +1037,9 @@ fn replay(case: &Value, ctx: &Ctx) {
     let mut acc = Acc::default();
     match case["phase"].as_str() {
         Some("empty") => empty_contract_id(&mut acc),
+        Some("helper") => {
+            probe_helper(&mut acc);
+        }
         Some("code") => {
             probe_code(case["len"].as_u64().unwrap() as usize, case["pat"].as_u64().unwrap() as u8, &params, true, &mut acc);
         }
